@@ -31,6 +31,16 @@ FRAMINGS = {
     "contract": "an INTERNAL CONTRACT drift. The edit changes what an internal helper returns or accepts in a corner (None vs empty, "
                 "tuple vs list, rounded vs exact, clamped vs raised, str vs object, 0 vs False, a new optional parameter with a default) "
                 "and updates most but not all of its callers, or a caller starts to rely on something the helper never promised.",
+    "deps": "an ASSUMPTION ABOUT A DEPENDENCY. The edit leans on how tinycss2 (node types, what parse/serialize round-trips and what it does "
+            "not, ParseError nodes, whitespace and comment tokens, at-rule content being None), click (option parsing, echo, exceptions, "
+            "standalone mode), rich (markup, Console, width, highlighting) or the standard library (pathlib, glob, os.replace, open() modes, "
+            "str methods, float formatting, round()) behaves; the assumption is true for ordinary input and false in a documented corner.",
+    "lifecycle": "a RESOURCE / OBJECT LIFECYCLE change. The edit changes when something is created, consumed, closed, reset or reused (a file "
+                 "handle, an iterator or generator, a context manager, a parsed tree, a list built once, an object kept for the next "
+                 "iteration, something initialised lazily) for a plausible reason.",
+    "diagnostics": "an added DIAGNOSTIC or CONVENIENCE. The edit adds a message, a progress indication, a summary line, a statistic, a "
+                   "timestamp or version stamp, a backup copy, a log file, a cache file, a default for a missing option, or an "
+                   "environment variable that switches something on - and that addition leaks into what the property constrains in a corner.",
     "ordering": "an ORDERING change. The edit re-orders two steps, or the traversal / iteration / sort order of something, for a plausible reason; "
                 "each order is fine for most inputs.",
 }
